@@ -404,7 +404,7 @@ func (m *mgr) advance(u *stUpload, target int, start bool) {
 		m.wg.Add(1)
 		go func() {
 			defer m.wg.Done()
-			res, err := st.Upload(u.payload, nil, u.enc)
+			res, err := safeUpload(st, u.payload, u.enc)
 			m.mu.Lock()
 			u.url, u.err, u.finished, u.at = res, err, true, stDone
 			m.order = append(m.order, u)
@@ -562,6 +562,17 @@ func (m *mgr) audit() replay.Obs {
 	return obs
 }
 
+// safeUpload turns a panic inside Upload (uploads corrupting each other's request can make the
+// SDK dereference a nil field) into a failed upload: an observation, not a dead driver.
+func safeUpload(st *vgis3.S3Storage, payload []byte, enc string) (u string, err error) {
+	defer func() {
+		if r := recover(); r != nil {
+			u, err = "", fmt.Errorf("Upload panicked: %v", r)
+		}
+	}()
+	return st.Upload(payload, nil, enc)
+}
+
 var errNotReturned = errors.New("Upload did not return within 30 s")
 
 type burstRes struct {
@@ -593,7 +604,7 @@ func (m *mgr) burst(n int, payloads [][]byte, encs []string) burstRes {
 		go func() {
 			defer wg.Done()
 			for i := g; i < n; i += goroutines {
-				u, err := st.Upload(payloads[i], nil, encs[i])
+				u, err := safeUpload(st, payloads[i], encs[i])
 				rmu.Lock()
 				urls[i], errs[i] = u, err
 				rmu.Unlock()
